@@ -452,7 +452,13 @@ func (c *Float) Ident() string {
 	// Insert decimal point if not present.
 	//    3e4 -> 3.0e4
 	//    42  -> 42.0
-	s := c.X.Text('g', -1)
+	//
+	// c.X is exactly representable as a float64 at this point. Note, the
+	// shortest decimal of big.Float.Text('g', -1) is not used, as it may round
+	// to the floating-point value below c.X when c.X is a power of two (e.g.
+	// float 33554432.0 was printed as 3.355443e+07).
+	f, _ := c.X.Float64()
+	s := strconv.FormatFloat(f, 'g', -1, 64)
 	if !strings.ContainsRune(s, '.') {
 		if pos := strings.IndexByte(s, 'e'); pos != -1 {
 			s = s[:pos] + ".0" + s[pos:]
